@@ -168,6 +168,10 @@ def serializer_reports_what_getattr_reports(ctx, rule):
         bad = []
         for src_ in sources(c.args[0]):
             ok = isinstance(src_, ast.Call) and ((isinstance(src_.func, ast.Attribute) and src_.func.attr in ("get_value_generator", "inspect_value")) or norm(src_.func) == "getattr")
+            if not ok and isinstance(src_, ast.Call) and isinstance(src_.func, ast.Name):
+                # a reporter bound to a local name first: `report = pobj.param.get_value_generator; report(name)`
+                binds = [st.value for st in ast.walk(f.node) if isinstance(st, ast.Assign) and any(isinstance(t, ast.Name) and t.id == src_.func.id for t in st.targets)]
+                ok = bool(binds) and all(isinstance(v, ast.Attribute) and v.attr in ("get_value_generator", "inspect_value") for v in binds)
             if not ok:
                 bad.append(src_)
         if bad:
